@@ -85,6 +85,7 @@ type Exec struct {
 	observes   []string
 	inTolerantInit bool
 	aliases    map[*Object][]aliasRec
+	guards     []guardRec
 }
 
 type aliasRec struct {
@@ -538,6 +539,9 @@ func (ex *Exec) exec(fr *frame, instr ssa.Instruction) {
 	case *ssa.Call:
 		fr.env[in] = ex.doCall(fr, &in.Call, nil)
 	case *ssa.Store:
+		if len(ex.guards) > 0 {
+			ex.guardAccess(ex.get(fr, in.Addr).(Ptr), true)
+		}
 		ex.storeChecked(fr, ex.get(fr, in.Addr).(Ptr), ex.get(fr, in.Val))
 	case *ssa.FieldAddr:
 		p := ex.get(fr, in.X).(Ptr)
@@ -584,6 +588,9 @@ func (ex *Exec) exec(fr *frame, instr ssa.Instruction) {
 		m := ex.get(fr, in.Map).(*MapVal)
 		if m == nil {
 			ex.goPanicf("assignment to entry in nil map")
+		}
+		if len(ex.guards) > 0 {
+			ex.guardMap(m, true)
 		}
 		ex.mapSet(m, ex.get(fr, in.Key), ex.get(fr, in.Value))
 	case *ssa.MakeChan:
@@ -932,6 +939,9 @@ func (ex *Exec) unop(fr *frame, in *ssa.UnOp) Value {
 	x := ex.get(fr, in.X)
 	switch in.Op {
 	case token.MUL:
+		if len(ex.guards) > 0 {
+			ex.guardAccess(x.(Ptr), false)
+		}
 		return ex.load(x.(Ptr))
 	case token.NOT:
 		return Not(x.(*Term))
